@@ -95,7 +95,7 @@ _loss("cross_entropy", "cross_entropy", "CrossEntropyLoss", R.cross_entropy,
 def _lin_ops(a):
     ops = [X(a["xshape"]), X([a["out"], a["xshape"][-1]], name="weight")]
     if a["bias"]:
-        ops.append(X([a["out"]], name="bias"))
+        ops.append(X([a["out"]], "zeros" if a.get("zero_bias") else "normal", name="bias"))
     return ops
 
 
@@ -114,7 +114,7 @@ reg(NNOp("linear", {
     "functional": lambda L, t, a: L.sg.linear(t[0], t[1], t[2] if a["bias"] else None),
     "module": _linear_module,
 }, _lin_ops, lambda xs, a: R.linear(xs[0], xs[1], xs[2] if a["bias"] else None),
-    documented=lambda a: len(a["xshape"]) == 2, argclass=lambda a: f"x{len(a['xshape'])}d,bias={a['bias']}"))
+    documented=lambda a: len(a["xshape"]) == 2, argclass=lambda a: f"x{len(a['xshape'])}d,bias={a['bias']}" + (",zero-bias" if a.get("zero_bias") else "")))
 
 
 # ---------------------------------------------------------------------------------------- conv / pool / unfold / fold
@@ -138,6 +138,8 @@ def _geo_class(a):
     if any((s or k) >= k and d > 1 and k > 1 for s, k, d in zip(ss * len(ks), ks, ds * len(ks))):
         parts.append("interleaved")
     parts.append("argform=" + ("tuple" if isinstance(a["kernel"], list) else "int"))
+    if a.get("zero_bias"):
+        parts.append("zero-bias")
     return ",".join(parts)
 
 
@@ -146,7 +148,7 @@ def _conv_ops(nd):
         k = a["kernel"] if isinstance(a["kernel"], list) else [a["kernel"]] * nd
         ops = [X(a["xshape"]), X([a["cout"], a["xshape"][1]] + list(k), name="weight")]
         if a["bias"]:
-            ops.append(X([a["cout"]], name="bias"))
+            ops.append(X([a["cout"]], "zeros" if a.get("zero_bias") else "normal", name="bias"))
         return ops
     return f
 
@@ -244,7 +246,7 @@ reg(NNOp("fold", {
 # ---------------------------------------------------------------------------------------- batch norm
 def _bn_ops(a):
     C = a["xshape"][1]
-    ops = [X(a["xshape"], "bn_x")]
+    ops = [X(a["xshape"], a.get("vclass", "bn_x"))]
     if a["affine"]:
         ops += [X([C], "pm_wellcond", name="gamma"), X([C], "normal", name="beta")]
     if a["track"]:
@@ -274,8 +276,9 @@ def _bn_functional(L, t, a):
     # running statistics are state: fresh copies per call so that the caller's operand arrays stay as given
     rmt = T(rm.data.copy()) if rm is not None else None
     rvt = T(rv.data.copy()) if rv is not None else None
-    training = a["training"] or not a["track"]
-    out = L.sg.batch_norm(t[0], g, b, rmt, rvt, training, a["momentum"], a["eps"])
+    # the functional form is called with the caller's `training` flag as given (training=False without running statistics is legal:
+    # the forward then normalises with the batch statistics)
+    out = L.sg.batch_norm(t[0], g, b, rmt, rvt, a["training"], a["momentum"], a["eps"])
     STATE["bn"] = (rmt, rvt)
     if a.get("second_forward"):
         # a later training-mode call on the same buffers, before the first output is differentiated
@@ -335,11 +338,14 @@ def _dropout(L, t, a):
     m = L.nn.Dropout(a["p"])
     m.train() if a["training"] else m.eval()
     np.random.seed(a["mask_seed"])
-    return m(t[0])
+    out = m(t[0])
+    if a.get("second_forward"):
+        m(L.Tensor(np.asarray(t[0].data) * 0.5 + 1.0))        # the same module is called again before the first output is differentiated
+    return out
 
 
 reg(NNOp("dropout", {"module": _dropout}, lambda a: [X(a["shape"], "shifted")], None, mode="affine",
-         argclass=lambda a: f"p={a['p']},training={a['training']}"))
+         argclass=lambda a: f"p={a['p']},training={a['training']}" + (",then-second-forward" if a.get("second_forward") else "")))
 
 
 # ---------------------------------------------------------------------------------------- values
@@ -356,6 +362,10 @@ def operand_values(rng, spec, a):
         return rng.standard_normal(shape) + 3.0
     if vc == "hard01":
         return rng.integers(0, 2, shape).astype(np.float64)
+    if vc == "zeros":
+        return np.zeros(shape)
+    if vc == "offset":
+        return rng.standard_normal(shape) * 0.5 + 300.0          # |mean|/std = 600: a one-pass variance cancels catastrophically in float32
     if vc == "huge":
         return rng.uniform(-800.0, 800.0, shape)
     if vc == "negbig":
@@ -417,6 +427,9 @@ def grid(name, tier, rng):
                 for b in (True, False):
                     out.append({"xshape": xs, "out": o, "bias": b})
         out.append({"xshape": [4, 3], "out": 1, "bias": True, "neuron": True})
+        out.append({"xshape": [4, 3], "out": 1, "bias": True, "neuron": True, "zero_bias": True})
+        out.append({"xshape": [3, 2], "out": 1, "bias": True, "zero_bias": True})
+        out.append({"xshape": [3, 2], "out": 2, "bias": True, "zero_bias": True})
         out.append({"xshape": [2, 5], "out": 1, "bias": False, "neuron": True})
     elif name in ("conv1d", "max_pool1d", "avg_pool1d"):
         pool = "pool" in name
@@ -436,6 +449,7 @@ def grid(name, tier, rng):
             for k, d, L in [(3, 1, 6), (1, 1, 4), (5, 1, 7), (2, 1, 6), (4, 1, 8), (3, 2, 8), (2, 2, 5)]:
                 out.append({"xshape": [1, 2, L], "kernel": k, "stride": 1, "padding": "same", "dilation": d, "cout": 2, "bias": True, "module_only": True})
             out.append({"xshape": [1, 2, 6], "kernel": 3, "stride": 1, "padding": "valid", "dilation": 1, "cout": 2, "bias": True, "module_only": True})
+            out.append({"xshape": [2, 1, 5], "kernel": 2, "stride": 1, "padding": 0, "dilation": 1, "cout": 1, "bias": True, "zero_bias": True})
     elif name in ("conv2d", "max_pool2d", "avg_pool2d", "unfold", "fold"):
         pool = "pool" in name
         g1 = geo1d(6 if not th else 7, pool=pool)
@@ -491,6 +505,7 @@ def grid(name, tier, rng):
             for p in (0, 0.3, 0.9, 1, 0.5):
                 for tr in (True, False):
                     out.append({"shape": s, "p": p, "training": tr})
+                out.append({"shape": s, "p": p, "training": True, "second_forward": True})
     else:
         raise KeyError(name)
     return out
